@@ -6,6 +6,7 @@ import (
 
 	"verifharness/internal/core"
 	"verifharness/internal/engine"
+	"verifharness/internal/sgen"
 )
 
 type branchSpec struct {
@@ -77,7 +78,7 @@ func (b branchSpec) schema() M {
 
 func init() {
 	register("C11", func(c *engine.Ctx) {
-		c.Rule = "allOf / anyOf of 1..4 object branches, inline or given by $ref to object definitions, with disjoint property sets, one identically declared shared property, or (allOf) one shared string property on which every branch puts a DIFFERENT constraint keyword (minLength / maxLength / pattern: the conjunction must hold), each branch with its own required list and bounds; for every subset S of the branches a document that satisfies exactly the branches in S (the others fail by one exceeded bound or one missing required key, never by a type error). Verdict must equal the reference; the generated outer type must expose the union of the branches' properties. Distinct = distinct (kind, branch count, subset, verdicts)."
+		c.Rule = "allOf / anyOf of 1..4 object branches, inline or given by $ref to object definitions, with disjoint property sets, one identically declared shared property, or (allOf) one shared string property on which every branch puts a DIFFERENT constraint keyword (minLength / maxLength / pattern: the conjunction must hold), each branch with its own required list and bounds; for every subset S of the branches a document that satisfies exactly the branches in S (the others fail by one exceeded bound or one missing required key, never by a type error). Plus definitions shared by several compositions (3-4 definitions over a pool of identically declared keys with overlapping required lists in random order, used by $ref in 2-3 allOf compositions at property / array-item positions; every single deletion of a required key at every composed position). Verdict must equal the reference; the generated outer type must expose the union of the branches' properties. Distinct = distinct (kind, branch count, subset, verdicts)."
 		c.Proofs([]string{"GJS.Props.C11"}, []string{
 			"GJS.Props.C11.anyBranch_iff", "GJS.Props.C11.anyOf_validator_rejects_iff", "GJS.Props.C11.merge_required",
 			"GJS.Props.C11.mergeEntry_keys", "GJS.Props.C11.mergeKvs_keys", "GJS.Props.C11.mergeKvs_disjoint_lookup",
@@ -168,10 +169,19 @@ func init() {
 				}
 			}
 		}
+		// definitions shared by several compositions: 3-4 object definitions over a common pool of identically declared
+		// keys, each with its own required list (overlapping with the others'), used by $ref in 2-3 allOf compositions
+		// at different positions (property, array items); a full document and every single deletion of a required key
+		// at every composed position.  A merge must not disturb the definitions it reads.
+		nShared := len(pcs)
+		pcs = append(pcs, sharedDefinitionCases(c, "c11-shared-definitions")...)
 		res := runCases(c, pcs)
 		fails := verdictOracle(c, res, "allOf/anyOf", nil)
 		// the outer type exposes the union of the branches' properties
 		for i, r := range res {
+			if i >= nShared {
+				break
+			}
 			if r.Real.Src == nil || r.CompileErr != "" {
 				if r.Real.ErrKind != "" || r.CompileErr != "" {
 					fails++
@@ -203,4 +213,88 @@ func init() {
 		breaks(c, res, nil, fails > 0)
 		knownProgramFindings(c)
 	})
+}
+
+// sharedDefinitionCases: definitions shared by several allOf compositions (see the rule text of C11).
+func sharedDefinitionCases(c *engine.Ctx, stream string) []*core.PCase {
+	var pcs []*core.PCase
+	keyPool := []string{"id", "name", "tag", "size", "kind"}
+	keySchema := M{"id": M{"type": "string"}, "name": M{"type": "string", "minLength": 1}, "tag": M{"type": "string"}, "size": M{"type": "integer", "minimum": 0}, "kind": M{"type": "boolean"}}
+	keyVal := M{"id": "a1", "name": "Ann", "tag": "red", "size": 3, "kind": true}
+	for rep := 0; rep < c.N(30, 300); rep++ {
+		nd := c.R.Range(3, 4)
+		defs := M{}
+		var dnames []string
+		reqOf := map[string][]string{}
+		propsOf := map[string][]string{}
+		for d := 0; d < nd; d++ {
+			dn := fmt.Sprintf("D%d", d)
+			ks := core.Sample(c.R, keyPool, c.R.Range(2, 3))
+			props := M{}
+			for _, k := range ks {
+				props[k] = sgen.DeepCopy(keySchema[k])
+			}
+			req := core.Sample(c.R, ks, c.R.Range(1, len(ks)))
+			core.Shuffle(c.R, req) // the order inside `required` matters to in-place list edits
+			defs[dn] = M{"type": "object", "properties": props, "required": toAnyS(req)}
+			dnames = append(dnames, dn)
+			reqOf[dn], propsOf[dn] = req, ks
+		}
+		props := M{}
+		type use struct {
+			key   string
+			items bool
+			ds    []string
+		}
+		var uses []use
+		for u := 0; u < c.R.Range(2, 3); u++ {
+			ds := core.Sample(c.R, dnames, 2)
+			core.Shuffle(c.R, ds)
+			comp := M{"allOf": []any{M{"$ref": "#/$defs/" + ds[0]}, M{"$ref": "#/$defs/" + ds[1]}}}
+			key := fmt.Sprintf("u%d", u)
+			items := c.R.P(0.4)
+			if items {
+				props[key] = M{"type": "array", "items": comp}
+			} else {
+				props[key] = comp
+			}
+			uses = append(uses, use{key, items, ds})
+		}
+		schema := M{"type": "object", "properties": props, "$defs": defs}
+		valOf := func(u use, drop string) any {
+			o := M{}
+			for _, d := range u.ds {
+				for _, k := range propsOf[d] {
+					if k != drop {
+						o[k] = keyVal[k]
+					}
+				}
+			}
+			if u.items {
+				return []any{o}
+			}
+			return o
+		}
+		full := M{}
+		for _, u := range uses {
+			full[u.key] = valOf(u, "")
+		}
+		docs := []any{full}
+		for _, u := range uses {
+			seen := map[string]bool{}
+			for _, d := range u.ds {
+				for _, k := range reqOf[d] {
+					if seen[k] {
+						continue
+					}
+					seen[k] = true
+					dd := sgen.DeepCopy(full).(M)
+					dd[u.key] = valOf(u, k)
+					docs = append(docs, dd)
+				}
+			}
+		}
+		pcs = append(pcs, baseCase(stream, schema, docs, "allOf", fmt.Sprintf("defs=%d", nd), fmt.Sprintf("uses=%d", len(uses)), "shared=definitions"))
+	}
+	return pcs
 }
